@@ -118,10 +118,14 @@ impl RcvdJournal {
     }
 
     fn on_rcvd_ack(&mut self, ack_frame: &AckFrame) {
-        let acked_pns: std::collections::HashSet<_> = ack_frame
+        // walk the packets we are waiting for, not every packet number the peer's ranges span:
+        // the latter is chosen by the peer and can be astronomically large
+        let ranges: Vec<_> = ack_frame.iter().collect();
+        let acked_pns: std::collections::HashSet<_> = self
+            .packet_include_ack
             .iter()
-            .flat_map(|range| range.clone())
-            .filter(|pn| self.packet_include_ack.contains(pn))
+            .copied()
+            .filter(|pn| ranges.iter().any(|range| range.contains(pn)))
             .collect();
 
         self.packet_include_ack.retain(|pn| !acked_pns.contains(pn));
